@@ -178,8 +178,14 @@ func checkC01(P *Program, r *Result, tier string) {
 		"LEN (XLength and the in-place writer's return value equal the number of bytes stored), READ-LAYOUT (the buffer reader and the stream reader compute every result from the same big-endian loads at the same positions, with the same sign/zero extension, and consume exactly the encoded length). " +
 		"The specification table is written in the checker; agreement of writer and reader with that one table gives the round trip."
 	layoutRules(P, r, codecKinds)
+	// the stream halves sit on bufiox: its delivery rules are part of what this property needs
+	expl := r.Explanation
+	checkC04(P, r, tier)
+	e4 := r.Explanation
+	checkC05(P, r, tier)
+	r.Explanation = expl + " STREAM (the stream reader/writer deliver or emit exactly the bytes requested, in order, under any fragmentation: the bufiox rules of C04 and C05 are re-checked here) — " + e4 + " — " + r.Explanation
 	r.assume("int is 64 bits wide (sign/zero extension of 32-bit wire sizes is compared at that width)")
-	r.assume("the in-place writers are given a buffer with room for the advertised length (copy() then copies len(v) bytes); the stream fragmentation half of the property is decided under C04")
+	r.assume("the in-place writers are given a buffer with room for the advertised length (copy() then copies len(v) bytes); the stream reader/writer halves rest on the bufiox rules (C04/C05) that are re-run as part of this check")
 	r.assume("unsafex.StringToBinary/BinaryToString, string↔[]byte conversions and spanCache.Copy preserve content (C16, C19)")
 }
 
